@@ -47,7 +47,24 @@ def _pool(test, rule, nontriv, quick=12000, thorough=150000, extra_assume=None):
                 assume=POOL_ASSUME + (extra_assume or []))
 
 
+CONC_RULE = (" A second generator (engine conc) runs concurrent workloads on sources instrumented with yield points in front of every mutex/atomic operation (schedule perturbed by "
+             "Gosched/microsecond sleeps from a seeded generator): one goroutine issues the serialized balancer callbacks (state flaps, resolver updates, bringing new connections up, completing refreshes), "
+             "2-8 goroutines issue picks and completions on current and stale pickers; thread-safe invariants are observed at the fake ClientConn.")
+
 PROPS.update({
+    "C10": dict(kind="harness", pkg="./conc", test="TestC10", race=True, instr=True,
+                quick=dict(checks=250, shards=4, timeout=900, env={"GORACE": "halt_on_error=0 history_size=3"}),
+                thorough=dict(checks=4000, shards=12, timeout=3300, env={"GORACE": "halt_on_error=0 history_size=3"}),
+                rule="generated workload programs compiled with -race on instrumented sources (yield points in front of every mutex/atomic operation of the five library files; the yield hook perturbs the schedule "
+                     "with Gosched / microsecond sleeps from a seeded generator). W1 pool: one goroutine issues the serialized balancer callbacks (state flaps, resolver updates, resolver errors, bringing new "
+                     "and replacement connections up), 2-8 goroutines run pick->complete loops on current and stale pickers with plain/BIND/BOUND/UNBIND methods, already expired deadlines and a 1 ms detection window "
+                     "so that refreshes and swaps happen under load, all feature flags drawn. W2 multiendpoint: Current / availability reports / SetEndpoints from several goroutines with real timers "
+                     "(recovery timeout and switching delay in {0, 50us, 1ms}). W3 GCPMultiEndpoint over in-memory servers: RPCs on several names || UpdateMultiEndpoints || outages || GCPConfig(). "
+                     "Oracle: the Go race detector and the runtime's concurrent-map check; every report is a violation (no open findings). Non-trivial = a program in which picks overlapped a running balancer "
+                     "callback, or a swap / growth happened under load, or (W2/W3) >=2 goroutines ran; distinct = FNV-1a of the canonical JSON of the program.",
+                assume=COMMON_ASSUME + ["the race detector only sees accesses that were executed: data-race freedom is sampled, not shown",
+                                        "balancer callbacks are serialized by the workload (as gRPC does); Done is called once per pick",
+                                        "inserting a call to a no-op hook in front of a statement is semantics-preserving"]),
     "C19": dict(kind="leaf", module="e2e-checksum",
                 files={"leaf/e2e-checksum/codec_verif_test.go": "zz_verif_codec_test.go"},
                 tests=[(".", "TestC19")],
@@ -222,7 +239,7 @@ class Runner:
                 continue
             out = os.path.join(self.bdir, "t_%s.bin" % pkg.strip("./").replace("/", "_"))
             cmd = [GO, "test", "-c", "-tags", "verif", "-overlay", self.ov, "-modfile", self.modfile, "-vet=off", "-o", out]
-            if self.spec.get("race"):
+            if self.spec.get("race") or part.get("race"):
                 cmd.append("-race")
             cmd.append(pkg)
             r = subprocess.run(cmd, cwd=os.path.join(self.here, "harness"), env=self.env(), capture_output=True, text=True)
@@ -240,8 +257,9 @@ class Runner:
         if self.replay:
             # a replay file names the part it belongs to through its shape; try the matching part
             part = self.replay_part()
+        checks = part.get(self.tier + "_checks", t["checks"])
         cmd = [self.bins[part["pkg"]], "-test.run", "^%s$" % part["test"], "-test.timeout", "%ds" % t["timeout"], "-test.v",
-               "-rapid.checks", str(t["checks"]), "-rapid.seed", str(rapid_seed(self.seed, i)), "-rapid.nofailfile"]
+               "-rapid.checks", str(checks), "-rapid.seed", str(rapid_seed(self.seed, i)), "-rapid.nofailfile"]
         if "steps" in t:
             cmd += ["-rapid.steps", str(t["steps"])]
         return cmd
@@ -366,6 +384,10 @@ class Runner:
                        VERIF_SHARD=str(i), VERIF_SHARDS=str(shards), VERIF_BDIR=self.bdir)
             if self.replay:
                 env["VERIF_REPLAY_IN"] = os.path.abspath(self.replay)
+            if "GORACE" in env and (self.spec.get("race") or any(p.get("race") for p in self.parts())):
+                rl = os.path.join(self.bdir, "race.%d" % i)
+                env["GORACE"] += " log_path=" + rl
+                env["VERIF_RACE_LOG"] = rl
             log = open(os.path.join(self.bdir, "log.%d.txt" % i), "w")
             procs.append((i, subprocess.Popen(self.shard_cmd(i, t), cwd=self.bdir, env=env, stdout=log, stderr=subprocess.STDOUT), log))
         deadline = time.time() + t["timeout"] + 60
